@@ -86,7 +86,7 @@ Print Assumptions C11_accepts_subschemas_top.
 (** undefined reference => UnknownType carrying the qualified name *)
 Theorem C11_rejects_undefined_ref : forall f s ns wh st d,
   is_prim s = false -> jhas (qualify ns s) (st_tbl st) = false ->
-  parse_rec (S f) (JStr s) ns wh st d = PErrUnknown (qualify ns s).
+  parse_rec (S f) (JStr s) ns wh st d = PErrUnknown (qualify ns s) (st_tbl st).
 Proof. exact exact_unknown_ref. Qed.
 Print Assumptions C11_rejects_undefined_ref.
 
